@@ -24,8 +24,8 @@ from fractions import Fraction
 from harness import common
 from harness.common import Failure, lean_run
 
-PROP_MODULES = ["ArmiVerif.Props.C19", "ArmiVerif.Props.C19Strings", "ArmiVerif.Props.C19Table", "ArmiVerif.Props.C19Material"]
-GEN_MODULES = ["ArmiVerif.Gen.NuclideTable", "ArmiVerif.Props.C19Table"]
+PROP_MODULES = ["ArmiVerif.Props.C19", "ArmiVerif.Props.C19Strings", "ArmiVerif.Props.C19Table", "ArmiVerif.Props.C19Material", "ArmiVerif.Props.C19MaterialTable"]
+GEN_MODULES = ["ArmiVerif.Gen.NuclideTable", "ArmiVerif.Props.C19Table", "ArmiVerif.Gen.MaterialTable", "ArmiVerif.Props.C19MaterialTable"]
 PARTIAL = ("identifier STRINGS are proved injective (Props/C19Strings.lean: name, label, MCNP, AAAZZZS, database name as the "
            "character sequences Python produces, tied by exhaustive string comparison); MC2 ids are data (uniqueness per library "
            "column is a table theorem, pseudo-nuclides DUMP1/DUMP2 excluded: finding F18); lumped/dummy burn-chain products are "
@@ -254,7 +254,309 @@ def regenerate(ctx):
         os.replace(tmp, GEN_PATH)
         ctx.count("regenerated Gen/NuclideTable.lean (content changed)")
     ctx.count("table rows regenerated", len(t["rows"]))
+    if getattr(ctx, "import_error", None) is None and "armi" in sys.modules:
+        regenerate_materials(ctx)
     return list(GEN_MODULES)
+
+
+
+# ------------------------------------------------------------------------------------------ polynomial correlations -> Lean
+MAT_GEN_PATH = os.path.join(common.LEAN, "ArmiVerif", "Gen", "MaterialTable.lean")
+
+class NotPoly(Exception): pass
+
+class Poly:
+    """polynomial in one variable with exact rational coefficients; comparisons are decided at the probe point"""
+    __array_priority__ = 1000
+    def __init__(self, cs, probe):
+        cs=list(cs)
+        while len(cs)>1 and cs[-1]==0: cs.pop()
+        self.cs=cs; self.probe=probe
+    @staticmethod
+    def lift(o, probe):
+        if isinstance(o, Poly): return o
+        if isinstance(o,Fraction): return Poly([o],probe)
+        if isinstance(o,(int,float)) and not isinstance(o,bool):
+            if not math.isfinite(o): raise NotPoly('nonfinite')
+            return Poly([Fraction(o)], probe)
+        try:
+            import numpy as np
+            if isinstance(o,(np.floating,np.integer)): return Poly([Fraction(float(o))],probe)
+        except ImportError: pass
+        raise NotPoly(f'operand {type(o)}')
+    def val(self):
+        x=Fraction(self.probe); return sum(c*x**k for k,c in enumerate(self.cs))
+    def __add__(s,o):
+        o=Poly.lift(o,s.probe); n=max(len(s.cs),len(o.cs))
+        return Poly([(s.cs[i] if i<len(s.cs) else 0)+(o.cs[i] if i<len(o.cs) else 0) for i in range(n)], s.probe)
+    __radd__=__add__
+    def __neg__(s): return Poly([-c for c in s.cs], s.probe)
+    def __pos__(s): return s
+    def __sub__(s,o): return s+(-Poly.lift(o,s.probe))
+    def __rsub__(s,o): return Poly.lift(o,s.probe)-s
+    def __mul__(s,o):
+        o=Poly.lift(o,s.probe); r=[Fraction(0)]*(len(s.cs)+len(o.cs)-1)
+        for i,a in enumerate(s.cs):
+            for j,b in enumerate(o.cs): r[i+j]+=a*b
+        return Poly(r,s.probe)
+    __rmul__=__mul__
+    def __truediv__(s,o):
+        o=Poly.lift(o,s.probe)
+        if len(o.cs)!=1 or o.cs[0]==0: raise NotPoly('division by a polynomial')
+        return Poly([c/o.cs[0] for c in s.cs], s.probe)
+    def __rtruediv__(s,o): raise NotPoly('division by a polynomial')
+    def __pow__(s,n):
+        if isinstance(n,float) and n.is_integer(): n=int(n)
+        if not isinstance(n,int) or n<0 or n>12: raise NotPoly(f'power {n}')
+        r=Poly([Fraction(1)],s.probe)
+        for _ in range(n): r=r*s
+        return r
+    def __rpow__(s,o): raise NotPoly('exponential')
+    def _cmp(s,o): 
+        o=Poly.lift(o,s.probe); return s.val(), o.val()
+    def __lt__(s,o): a,b=s._cmp(o); return a<b
+    def __le__(s,o): a,b=s._cmp(o); return a<=b
+    def __gt__(s,o): a,b=s._cmp(o); return a>b
+    def __ge__(s,o): a,b=s._cmp(o); return a>=b
+    def __eq__(s,o):
+        try: a,b=s._cmp(o)
+        except NotPoly: return False
+        return a==b
+    def __ne__(s,o): return not s.__eq__(o)
+    __hash__=None
+    def __float__(s): raise NotPoly('float()')
+    def __abs__(s): return s if s.val()>=0 else -s
+    def __array_ufunc__(s, ufunc, method, *a, **k):
+        import numpy as np
+        if ufunc is np.isnan: return False
+        raise NotPoly('numpy ufunc')
+    def __bool__(s): return s.val()!=0
+
+_MISSING = object()
+def p_float(x):
+    import builtins
+    return x if isinstance(x, Poly) else builtins.float(x)
+def p_getTk(Tc=None, Tk=None):
+    if not ((Tc is not None) ^ (Tk is not None)): raise ValueError
+    return Tk if Tk is not None else Tc + 273.15
+def p_getTc(Tc=None, Tk=None):
+    if not ((Tc is not None) ^ (Tk is not None)): raise ValueError
+    return Tc if Tc is not None else Tk - 273.15
+def p_interp(x, xp, fp, *a, **k):
+    if a or k: raise NotPoly('interp options')
+    if not isinstance(x,Poly): 
+        import numpy; return numpy.interp(x,xp,fp)
+    xp=[float(v) for v in xp]; fp=[float(v) for v in fp]
+    v=float(x.val())
+    if v<=xp[0]: return Poly([Fraction(fp[0])],x.probe)
+    if v>=xp[-1]: return Poly([Fraction(fp[-1])],x.probe)
+    import bisect
+    i=bisect.bisect_right(xp,v)-1
+    # numpy: slope*(x-xp[i])+fp[i]
+    slope=(Fraction(fp[i+1])-Fraction(fp[i]))/(Fraction(xp[i+1])-Fraction(xp[i]))
+    return (x-xp[i])*slope+fp[i]
+
+class _patched:
+    def __init__(self, cls): self.cls=cls; self.saved=[]
+    def __enter__(self):
+        import numpy as np
+        import armi.utils.units as _units
+        for name,fn in (('getTk',p_getTk),('getTc',p_getTc)):   # `units.getTk(...)` spelled through the module
+            self.saved.append((_units,name,getattr(_units,name))); setattr(_units,name,fn)
+        for k in self.cls.__mro__:
+            mod=sys.modules.get(getattr(k,'__module__',''))
+            if mod is None or not mod.__name__.startswith('armi.materials'): continue
+            for name,fn in (('getTk',p_getTk),('getTc',p_getTc),('interp',p_interp)):
+                if hasattr(mod,name):
+                    self.saved.append((mod,name,getattr(mod,name))); setattr(mod,name,fn)
+            # `float(T)` inside a correlation: the identity on a symbolic temperature (module global shadows the builtin)
+            self.saved.append((mod,'float',mod.__dict__.get('float',_MISSING))); setattr(mod,'float',p_float)
+        return self
+    def __exit__(self,*a):
+        for mod,name,old in self.saved:
+            if old is _MISSING: delattr(mod,name)
+            else: setattr(mod,name,old)
+
+def extract(m, fn, unit, lo, hi, cuts):
+    """pieces [(a,b,coeffs)] of fn on [lo,hi] or a string reason"""
+    pts=sorted({lo,hi}|{c for c in cuts if lo<c<hi})
+    pieces=[]
+    with _patched(type(m)), common.quiet():
+        for a,b in zip(pts,pts[1:]):
+            mid=(Fraction(a)+Fraction(b))/2
+            x=Poly([Fraction(0),Fraction(1)], mid)
+            try:
+                r=getattr(m,fn)(Tk=x) if unit=='K' else getattr(m,fn)(Tc=x)
+            except NotPoly as e: return f'not polynomial: {e}'
+            except Exception as e: return f'raises {type(e).__name__}: {e}'
+            try: r=Poly.lift(r,mid)
+            except NotPoly as e: return f'not polynomial: {e}'
+            if pieces and pieces[-1][2]==r.cs: pieces[-1]=(pieces[-1][0],b,r.cs)
+            else: pieces.append((a,b,r.cs))
+    return pieces
+
+
+
+def _imul(a, b, l, h):
+    c = (a * l, a * h, b * l, b * h)
+    return min(c), max(c)
+
+
+def poly_range(cs, a, b):
+    """interval Horner, the same computation as Model/Nuclide.lean polyRange"""
+    lo = hi = Fraction(0)
+    for c in reversed(cs):
+        l, h = _imul(a, b, lo, hi)
+        lo, hi = c + l, c + h
+    return lo, hi
+
+
+def subintervals_needed(cs, lo, hi, lb, ub):
+    """smallest n in 1, 2, 4, ... 1024 for which the Lean check `checkPiece` succeeds; None if none does"""
+    lo, hi = Fraction(lo), Fraction(hi)
+    n = 1
+    while n <= 1024:
+        w = (hi - lo) / n
+        ok = True
+        a = lo
+        for _ in range(n):
+            l, h = poly_range(cs, a, a + w)
+            if not (lb < l and h < ub):
+                ok = False
+                break
+            a += w
+        if ok:
+            return n
+        n *= 2
+    return None
+
+
+def poly_value(cs, x):
+    x = Fraction(x)
+    return sum(c * x ** k for k, c in enumerate(cs))
+
+
+def material_plans(m):
+    """(function, unit, lo, hi, kind) whose correlation is looked at: the ranges are the ones run_materials samples"""
+    from armi.materials import material as mm
+
+    c = type(m)
+    pvt = dict(getattr(m, "propertyValidTemperature", {}) or {})
+    drange = next((k for k in DENSITY_KEYS if k in pvt), None)
+    erange = next((k for k in PERCENT_KEYS + ("linear expansion",) if k in pvt), None)
+    src = drange or erange
+    plans = []
+    if src:
+        (lo, hi), unit = pvt[src]
+        for fn in ("density", "pseudoDensity"):
+            plans.append((fn, unit, lo, hi, "positive"))
+        unwrap = lambda f: getattr(f, "__wrapped__", f)  # Material.__init_subclass__ wraps density in every subclass
+        base = [fn for fn in ("density", "pseudoDensity") if unwrap(getattr(c, fn)) is unwrap(getattr(mm.Material, fn))]
+        if base and isinstance(m.refDens, (int, float)) and m.refDens > 0:
+            plans.append(("linearExpansionPercent", unit, lo, hi, "density-by-base-formula:" + "+".join(base)))
+    for k in PERCENT_KEYS + ("linear expansion",):
+        if k in pvt:
+            (lo2, hi2), unit2 = pvt[k]
+            plans.append(("linearExpansionPercent", unit2, lo2, hi2, "bounded"))
+    return plans
+
+
+def build_material_table():
+    """symbolic execution of every material's density / expansion methods with a polynomial in place of the temperature:
+    -> (pieces, report). A piece is emitted when the method is a (piecewise) polynomial on the range; the number of sub-intervals
+    the Lean interval check needs is found here with the same arithmetic. report[(material, fn, kind)] says proved / why sampled."""
+    pieces, report = [], {}
+    for c in material_classes():
+        name = c.__name__
+        if c.__module__.split(".")[-1] in ABSTRACT_MODULES:
+            continue
+        try:
+            with common.quiet():
+                m = c()
+        except Exception:  # noqa
+            continue
+        nums = set()
+        for k in c.__mro__:
+            modname = getattr(k, "__module__", "")
+            if modname.startswith("armi.materials") and not modname.endswith(".material"):
+                if modname not in _SRC_NUMS:
+                    source_temperatures(c, 0.0, 1.0, None, 10 ** 9)
+                nums |= _SRC_NUMS.get(modname, set())
+        seen = set()
+        for fn, unit, lo, hi, kind in material_plans(m):
+            if (fn, unit, lo, hi, kind) in seen or not lo < hi:
+                continue
+            seen.add((fn, unit, lo, hi, kind))
+            cuts = sorted({cc for v in nums for cc in (v, v - 273.15, v + 273.15) if lo < cc < hi})
+            r = extract(m, fn, unit, lo, hi, cuts)
+            key = (name, fn, kind, unit, lo, hi)
+            if isinstance(r, str):
+                report[key] = "sampled: " + r
+                continue
+            lb, ub = ((Fraction(0), Fraction(10 ** 6)) if kind == "positive" else (Fraction(-100), Fraction(1000))
+                      if kind.startswith("density-by") else (Fraction(-10 ** 6), Fraction(10 ** 6)))
+            ref = Fraction(float(m.refDens)) if kind.startswith("density-by") else Fraction(0)
+            out = []
+            for a, b, cs in r:
+                n = subintervals_needed(cs, a, b, lb, ub)
+                if n is None:
+                    # does the polynomial itself leave the bounds (then the obligation is emitted and BREAKS), or is only the
+                    # enclosure too coarse (then the piece stays sampled)?
+                    fa, fb = Fraction(a), Fraction(b)
+                    bad = [fa + (fb - fa) * i / 512 for i in range(513) if not lb < poly_value(cs, fa + (fb - fa) * i / 512) < ub]
+                    if bad:
+                        n = 16
+                    else:
+                        out = None
+                        break
+                out.append({"material": name, "fn": fn, "kind": kind, "unit": unit, "lo": Fraction(a), "hi": Fraction(b), "cs": cs,
+                            "lb": lb, "ub": ub, "n": n, "refDens": ref})
+            if out is None:
+                report[key] = "sampled: interval enclosure too coarse"
+            else:
+                pieces += out
+                report[key] = f"proved ({len(out)} piece{'s' if len(out) != 1 else ''}, degree {max(len(p['cs']) - 1 for p in out)})"
+                if kind.startswith("density-by"):
+                    for bfn in kind.split(":")[1].split("+"):
+                        report[(name, bfn, "positive", unit, lo, hi)] = ("proved through matDensity_pos: base-class formula, reference density "
+                                                                        f"{float(m.refDens):g} > 0, expansion piece above -100 %")
+    return pieces, report
+
+
+def _q(x):
+    x = Fraction(x)
+    return f"({x.numerator} : Rat)" if x.denominator == 1 else f"(({x.numerator} : Rat) / {x.denominator})"
+
+
+def render_material_table(pieces):
+    L = ["/- GENERATED by harness/c19.py (build_material_table) from the material classes of /repo/armi/materials: the density / "
+         "expansion methods that are piecewise polynomials in the temperature, obtained by running the methods on a symbolic "
+         "polynomial. Data only. -/",
+         "import ArmiVerif.Model.Nuclide", "namespace ArmiVerif.Nuclide.GenMat", "open ArmiVerif.Nuclide", ""]
+    for listname, sel in (("boundPieces", lambda p: not p["kind"].startswith("density-by")),
+                          ("densityPieces", lambda p: p["kind"].startswith("density-by"))):
+        rows = [p for p in pieces if sel(p)]
+        L.append(f"def {listname} : List Piece := [")
+        L.append(",\n".join(
+            f"  ⟨\"{p['material']}\", \"{p['fn']} [{p['kind']}] T in {p['unit']}\", {_q(p['lo'])}, {_q(p['hi'])}, "
+            f"[{', '.join(_q(c) for c in p['cs'])}], {_q(p['lb'])}, {_q(p['ub'])}, {p['n']}, {_q(p['refDens'])}⟩" for p in rows))
+        L.append("]\n")
+    L.append("end ArmiVerif.Nuclide.GenMat")
+    return "\n".join(L) + "\n"
+
+
+def regenerate_materials(ctx):
+    pieces, report = build_material_table()
+    src = render_material_table(pieces)
+    old = open(MAT_GEN_PATH).read() if os.path.exists(MAT_GEN_PATH) else None
+    if old != src:
+        tmp = MAT_GEN_PATH + f".tmp{os.getpid()}"
+        with open(tmp, "w") as f:
+            f.write(src)
+        os.replace(tmp, MAT_GEN_PATH)
+        ctx.count("regenerated Gen/MaterialTable.lean (content changed)")
+    ctx.count("material correlation pieces regenerated", len(pieces))
+    ctx.material_table = (pieces, report)
 
 
 # ------------------------------------------------------------------------------------------ table scan (pure Python)
@@ -348,6 +650,8 @@ def search(ctx, disagreements, broken):
     out = []
     if broken:
         out += scan_tables()
+        if any("Material" in str(b[0]) for b in broken):
+            out += scan_material_table()
     if disagreements:
         # re-evaluate the oracle on the real objects named by the disagreeing cases
         sub = type(ctx)(ctx.prop, ctx.tier, ctx.seed)
@@ -1108,7 +1412,8 @@ def run_material_formulas(ctx):
                 m = c()
         except Exception:  # noqa  (reported by run_materials)
             continue
-        baseD = c.density is mm.Material.density
+        unwrap = lambda f: getattr(f, "__wrapped__", f)  # Material.__init_subclass__ wraps density in every subclass
+        baseD = unwrap(c.density) is unwrap(mm.Material.density)
         baseP = c.pseudoDensity is mm.Material.pseudoDensity
         if not (baseD or baseP):
             ctx.count("material formulas: class overrides density and pseudoDensity (not modelled)")
@@ -1158,10 +1463,114 @@ def run_material_formulas(ctx):
     ctx.count("material formula requests (density, pseudoDensity)", len(req))
 
 
+def _material_instances():
+    out = {}
+    for c in material_classes():
+        try:
+            with common.quiet():
+                out[c.__name__] = c()
+        except Exception:  # noqa
+            pass
+    return out
+
+
+def run_material_table(ctx):
+    """the regenerated polynomial pieces against the real methods (end points, middle, random points of every piece), and the
+    list of what is PROVED over the whole range / what remains sampled"""
+    pieces, report = getattr(ctx, "material_table", None) or build_material_table()
+    inst = _material_instances()
+    req, judged = [], []
+    for p in pieces:
+        m = inst.get(p["material"])
+        if m is None:
+            continue
+        lo, hi = float(p["lo"]), float(p["hi"])
+        # end points: a breakpoint between two pieces belongs to ONE of them (e.g. `Tk < 923` / else), so an end point may be
+        # judged at the adjacent double inside the piece instead
+        pts = [(lo, math.nextafter(lo, hi)), (hi, math.nextafter(hi, lo)), ((lo + hi) / 2, None)]
+        pts += [(ctx.rng.uniform(lo, hi), None) for _ in range(ctx.pick(2, 8))]
+        for T, alt in pts:
+            vals = []
+            for t in (T, alt):
+                if t is None:
+                    vals.append(None)
+                    continue
+                try:
+                    with common.quiet():
+                        f = getattr(m, p["fn"])
+                        vals.append(float(f(Tk=t) if p["unit"] == "K" else f(Tc=t)))
+                except Exception as e:  # noqa
+                    vals.append(None)
+            if vals[0] is None:
+                ctx.count("material table: real method refuses a point of its piece (left to the sampling oracle)")
+                continue
+            case = {"material": p["material"], "function": p["fn"], "unit": p["unit"], "T": T, "piece": [lo, hi]}
+            cs = ",".join(str(c) for c in p["cs"])
+            req.append(f"polyeval [{cs}] {common.rat(T)}")
+            req.append(f"polyeval [{cs}] {common.rat(alt if alt is not None else T)}")
+            judged.append((case, vals))
+            ctx.evaluations += 1
+        ctx.case(("material-piece", p["material"], p["fn"], p["kind"], float(p["lo"])), nontrivial=True)
+    model = lean_run("Nuclide", req)
+    for i, (case, vals) in enumerate(judged):
+        l0, l1 = model[2 * i], model[2 * i + 1]
+        ok0 = l0 not in ("reject", "bad-op") and math.isfinite(vals[0]) and common.close(vals[0], Fraction(l0), 1e-9)
+        if ok0:
+            continue
+        if vals[1] is not None and l1 not in ("reject", "bad-op") and math.isfinite(vals[1]) and common.close(vals[1], Fraction(l1), 1e-9):
+            ctx.count("material table: breakpoint belongs to the neighbouring piece (judged at the adjacent double inside)")
+            continue
+        ctx.disagree("regenerated polynomial correlation vs the material's method", case, l0[:60], vals[0])
+    proved = sorted(f"{k[0]}.{k[1]} [{k[2]}] {k[4]}..{k[5]} {k[3]}: {v}" for k, v in report.items() if v.startswith("proved"))
+    sampled = sorted(f"{k[0]}.{k[1]} [{k[2]}]: {v}" for k, v in report.items() if not v.startswith("proved"))
+    ctx.extra["materials_proved_over_whole_range"] = proved
+    ctx.extra["materials_sampled_only"] = sampled
+    ctx.count("material correlations proved over the whole stated range (interval arithmetic, kernel-checked)", len(proved))
+    ctx.count("material correlations that remain sampled (not polynomial / enclosure too coarse)", len(sampled))
+    ctx.count("material table correspondence requests", len(req))
+
+
+def scan_material_table():
+    """a material-table obligation no longer checks: find the temperatures at which a regenerated polynomial leaves its bounds and
+    evaluate the REAL density / expansion there"""
+    out = []
+    pieces, _ = build_material_table()
+    inst = _material_instances()
+    for p in pieces:
+        if subintervals_needed(p["cs"], p["lo"], p["hi"], p["lb"], p["ub"]) is not None:
+            continue
+        fa, fb = p["lo"], p["hi"]
+        bad = [fa + (fb - fa) * i / 2048 for i in range(2049) if not p["lb"] < poly_value(p["cs"], fa + (fb - fa) * i / 2048) < p["ub"]]
+        m = inst.get(p["material"])
+        if not bad or m is None:
+            continue
+        fns = ["density", "pseudoDensity"] if p["kind"].startswith("density-by") else [p["fn"]]
+        positive = p["kind"] != "bounded"
+        for fn in fns:
+            for T in (bad[0], bad[len(bad) // 2], bad[-1]):
+                T = float(T)
+                try:
+                    with common.quiet():
+                        f = getattr(m, fn)
+                        v = f(Tk=T) if p["unit"] == "K" else f(Tc=T)
+                    fv = float(v)
+                    ok = math.isfinite(fv) and (fv > 0 or not positive)
+                except Exception as e:  # noqa
+                    fv, ok = repr(e), False
+                if not ok:
+                    out.append(Failure(f"material-{fn}-{'positive-finite' if positive else 'finite'}-{p['material']}",
+                                       f"{fn} is {'finite and positive' if positive else 'finite'} at every temperature of the stated range",
+                                       {"material": p["material"], "function": fn, "unit": p["unit"], "range": [float(fa), float(fb)], "T": T,
+                                        "failingPoints": len(bad), "foundBy": "broken interval obligation of Gen/MaterialTable"}, observed=fv))
+                    break
+    return out
+
+
 def run(ctx):
     n = run_directory(ctx)
     run_material_resolution(ctx)
     run_material_formulas(ctx)
+    run_material_table(ctx)
     run_mutators(ctx)
     nm = run_materials(ctx)
     ctx.extra["materials_half"] = ("exhaustive enumeration of the finite material library at SAMPLED temperatures (grid over each "
